@@ -342,7 +342,7 @@ def run(R):
                 if not cl["wf"]:
                     dis.append({"program": name, "what": "a real call graph is not well-formed in the sense the theorems assume (armsWF)", "route": h, "closure": cl,
                                 "graphs": next(r for r in routes if r["route"] == h)["closures"]})
-                if not cl["resplice"] or not cl["invariant"]:
+                if not cl["resplice"] or not cl["invariant"] or not cl["spliceReady"]:
                     dis.append({"program": name, "what": "the model's splice + branching does not reproduce pavexc's graph (or the observer count invariant fails)", "route": h, "closure": cl,
                                 "graphs": next(r for r in routes if r["route"] == h)["closures"]})
                 for arm in cl["arms"]:
